@@ -272,3 +272,42 @@ def same_name_arguments(chk, rule, rel, caller_q, callee_q, what):
     chk.ob(rule, f"{rel}:{caller_q}", f"arguments-reach-their-namesakes[{short}]", bool(calls) and not problems,
            f"{what}: each option of {caller_q} is passed to the parameter of {callee_q} with the same name", node=calls[0] if calls else caller,
            strength="N", problems=problems, calls=len(calls))
+
+
+def or_defaults(fn, is_configured):
+    """`value or default` used as a *value* (not as a condition) whose earlier operands satisfy is_configured(node): the idiom
+    that replaces a configured 0 / empty value by the default.  -> [text]"""
+    from .astutil import parent as _parent
+    bad = []
+    for b in ast.walk(fn):
+        if not (isinstance(b, ast.BoolOp) and isinstance(b.op, ast.Or)):
+            continue
+        if not any(is_configured(v) for v in b.values[:-1]):
+            continue
+        p_ = _parent(b)
+        in_cond = False
+        while p_ is not None and not isinstance(p_, ast.stmt):
+            if isinstance(p_, (ast.Compare, ast.UnaryOp, ast.BoolOp)) or (isinstance(p_, ast.IfExp) and p_.test is b) or \
+                    (isinstance(p_, ast.comprehension) and any(b is i_ for i_ in p_.ifs)):
+                in_cond = True
+            p_ = _parent(p_)
+        if isinstance(p_, (ast.If, ast.While, ast.Assert)):
+            in_cond = True
+        if not in_cond:
+            bad.append(norm(b)[:100])
+    return bad
+
+
+def adjacent_grouping(node):
+    """calls of itertools.groupby whose input is not sorted by the same key first: groupby starts a new group whenever the key
+    changes, so items with equal keys that are not adjacent end up in different groups.  -> [Call]"""
+    out = []
+    for c in ast.walk(node):
+        if isinstance(c, ast.Call) and norm(c.func) in ("groupby", "itertools.groupby") and c.args:
+            src = c.args[0]
+            key = next((k.value for k in c.keywords if k.arg == "key"), c.args[1] if len(c.args) > 1 else None)
+            sorted_first = isinstance(src, ast.Call) and norm(src.func) == "sorted" and \
+                norm(next((k.value for k in src.keywords if k.arg == "key"), None) or ast.Constant(value=None)) == norm(key or ast.Constant(value=None))
+            if not sorted_first:
+                out.append(c)
+    return out
